@@ -188,6 +188,15 @@ def step_proofs(res, prop, targets, sections=()):
         res.add_broken('proof', f"audit/Audit{prop}.v (pinned statement no longer matches the proved theorem)", ' '.join(out.split())[-500:])
         res.discharged = 0
         return False
+    exp = os.path.join(COQ, 'audit', 'Audit' + prop + '.expected')
+    if os.path.exists(exp):
+        norm = lambda t: ' '.join(t.split())
+        if norm(open(exp).read()) != norm(out):
+            import difflib
+            d = [l for l in difflib.unified_diff(open(exp).read().splitlines(), out.splitlines(), lineterm='', n=0) if l[:1] in '+-' and l[:3] not in ('+++', '---')]
+            res.add_broken('proof', f"audit/Audit{prop}.expected (a pinned theorem statement or its assumptions changed)", ' | '.join(d[:6]))
+            res.discharged = 0
+            return False
     # parse: sequence of Print Assumptions answers
     answers = re.findall(r'(Closed under the global context|Axioms:.*?(?=\nClosed under|\nAxioms:|\Z))', out, re.S)
     ok = 0
